@@ -225,6 +225,10 @@ def rule_R5(ctx, f):
     if not b:
         return
     ctx.saw(b)
+    if not b.calls_to("LabelPair::set_name"):
+        # the variable pairs built by `iter.map(|..| pair)` and appended with collect / extend: look at the explicit push loop
+        from pvrules import inline
+        b = inline.desugar_map_collect(f, b) or b
     sn = b.calls_to("LabelPair::set_name")
     sv = b.calls_to("LabelPair::set_value")
     ps = b.calls_to("Vec::push")
@@ -266,6 +270,10 @@ def rule_R5(ctx, f):
         ec = elem_of(peel(ps[1].args[1]))
         okc = bool(ec) and ec[0] == CONSTS and not [a for a in ec[1] if a not in ("into_iter", "iter")]
         csite = ps[1]
+    elif exts[0].matches("Vec::extend_from_slice"):
+        okc = peel(exts[0].args[1], transparent=["Deref::deref", "Vec::as_slice", "AsRef::as_ref", "Borrow::borrow"]) == CONSTS and peel(exts[0].args[0]) == peel(ps[0].args[0]) \
+            and count_range(b, [exts[0].bb])[0] >= 0
+        csite = exts[0]
     else:
         sq = seqeval.iter_seq(b, exts[0].args[1])
         okc = sq is not None and [sg[:3] for sg in sq] == [("each", CONSTS, ())] and peel(exts[0].args[0]) == peel(ps[0].args[0])
